@@ -9,6 +9,7 @@ import Pycdlib.Model.Checksum
 import Pycdlib.Model.Layout
 import Pycdlib.Model.Dates
 import Pycdlib.Proofs.Crc
+import Pycdlib.Proofs.Crc32
 namespace Pycdlib
 open Pycdlib.PyOps
 
@@ -118,5 +119,56 @@ theorem crc_ccitt_tie (data : List Nat) (hd : ∀ x ∈ data, x < 256) :
       rw [crc_ccitt_step_tie c x hc (hl x (by simp))]
       exact ih _ (crc16Byte_lt c x hc (hl x (by simp))) (fun y hy => hl y (by simp [hy]))
   exact key data 0 (by decide) hd
+
+/-! ### CRC-32: the function in isohybrid.py equals the bit-by-bit reflected CRC-32, for every byte string -/
+
+theorem crc32Shift_lt (c : Nat) (h : c < 2 ^ 32) : crc32Shift c < 2 ^ 32 := by
+  unfold crc32Shift
+  split
+  · exact Nat.xor_lt_two_pow (by omega) (by decide)
+  · omega
+
+theorem crc32Byte_lt (crc x : Nat) (hc : crc < 2 ^ 32) (hx : x < 256) : crc32Byte crc x < 2 ^ 32 := by
+  unfold crc32Byte iter8
+  have h0 : crc ^^^ x < 2 ^ 32 := Nat.xor_lt_two_pow hc (by omega)
+  exact crc32Shift_lt _ (crc32Shift_lt _ (crc32Shift_lt _ (crc32Shift_lt _ (crc32Shift_lt _ (crc32Shift_lt _
+    (crc32Shift_lt _ (crc32Shift_lt _ h0)))))))
+
+theorem crc32_step_tie (crc x : Nat) (hc : crc < 2 ^ 32) (hx : x < 256) :
+    pyXor (pyAnd (pyShr (crc : Int) 8) 16777215) (pyIndex Generated.crc32_table (pyAnd (pyXor (crc : Int) (x : Int)) 255))
+      = ((crc32Byte crc x : Nat) : Int) := by
+  rw [pyShr8_cast, pyXor_cast]
+  have e1 : (16777215 : Int) = ((16777215 : Nat) : Int) := rfl
+  have e2 : (255 : Int) = ((255 : Nat) : Int) := rfl
+  rw [e1, e2, pyAnd_cast, pyAnd_cast, pyIndex_cast, pyXor_cast]
+  clear e1 e2
+  congr 1
+  have h1 : crc / 256 &&& 16777215 = crc / 256 := by
+    have := Nat.and_two_pow_sub_one_eq_mod (crc / 256) 24
+    have hlt : crc / 256 < 2 ^ 24 := by omega
+    simpa [Nat.mod_eq_of_lt hlt] using this
+  have h2 : (crc ^^^ x) &&& 255 = (crc ^^^ x) % 2 ^ 8 := Nat.and_two_pow_sub_one_eq_mod (crc ^^^ x) 8
+  rw [h1, h2]
+  have := crc32Byte_table (fun i => Generated.crc32_table.getD i 0) crc32_table_spec crc x hx
+  simpa using this.symm
+
+/-- **tie**: `isohybrid.crc32` (table regenerated from the source on every run) = bit-by-bit CRC-32 -/
+theorem crc32_tie (data : List Nat) (hd : ∀ x ∈ data, x < 256) :
+    Generated.crc32 (data.map fun (x : Nat) => (x : Int)) = ((crc32 data : Nat) : Int) := by
+  unfold Generated.crc32 crc32
+  simp only
+  have key : ∀ (l : List Nat) (c : Nat), c < 2 ^ 32 → (∀ x ∈ l, x < 256) →
+      List.foldl (fun crc x => pyXor (pyAnd (pyShr crc 8) 16777215) (pyIndex Generated.crc32_table (pyAnd (pyXor crc x) 255)))
+        (c : Int) (l.map fun (x : Nat) => (x : Int)) = ((l.foldl crc32Byte c : Nat) : Int) := by
+    intro l
+    induction l with
+    | nil => intro c _ _; rfl
+    | cons x xs ih =>
+      intro c hc hl
+      simp only [List.map_cons, List.foldl_cons]
+      rw [crc32_step_tie c x hc (hl x (by simp))]
+      exact ih _ (crc32Byte_lt c x hc (hl x (by simp))) (fun y hy => hl y (by simp [hy]))
+  have e : (4294967295 : Int) = ((4294967295 : Nat) : Int) := rfl
+  rw [e, key data 4294967295 (by decide) hd, pyXor_cast]
 
 end Pycdlib
